@@ -111,7 +111,9 @@ class WeightedSumModel(SKCDecisionMakerABC):
 def wpm(matrix, weights):
     """Execute weighted product model without any validation."""
     # instead of multiply we sum the logarithms
-    lmtx = np.log10(matrix)
+    # (in double precision: the logarithm of an int8 / int16 array would be
+    # computed in float16 / float32)
+    lmtx = np.log10(np.asarray(matrix, dtype=float))
 
     # add the weights to the mtx
     rank_mtx = np.multiply(lmtx, weights)
